@@ -160,6 +160,27 @@ func Exec(s core.Schedule) *core.Outcome {
 		settle()
 		r.checkFatals()
 		r.checkReconciled()
+	} else if cfg.Prop == "C11" {
+		// every forwarded write has a deadline: let them all be answered, then heal, converge, and ask again
+		for k := 0; k < 120; k++ {
+			pending := false
+			for _, op := range r.fwd {
+				if !op.done {
+					pending = true
+				}
+			}
+			if !pending {
+				break
+			}
+			time.Sleep(250 * time.Millisecond)
+			settle()
+		}
+		r.checkFatals()
+		r.checkForwarded()
+		if !r.failed() {
+			r.finalLiveness()
+			r.finalForwarded()
+		}
 	} else if cfg.Prop == "C10" {
 		r.waitPending()
 		r.checkFatals()
@@ -337,6 +358,8 @@ func (r *run) finish() {
 		}
 	}
 	switch r.cfg.Prop {
+	case "C11":
+		out.NonTrivial = out.Probes["forwarded-waited"] > 0 && out.Probes["forwarded-acknowledged"] >= 2
 	case "C05":
 		out.NonTrivial = out.Probes["follower-advanced"] >= 2 && len(out.Faults) > 0
 	case "C10":
